@@ -432,7 +432,7 @@ def run(tier):
     for part in harness.pmap(task_siblings, harness.rotate(tasks)):
         rep.merge(part)
     od = []
-    for d in (dates if thorough else dates[-1:]):
+    for d in (dates[::8] if thorough else dates[-1:]):
         for pop in pops:
             df = popgen.frame(popgen.combined(pop, int(d[:4])))
             try:
